@@ -1,8 +1,9 @@
 //! C18 — bitboards behave as sets of squares.
 //! Contracts stated square-wise against the plain membership model `mem(x, q) = bit q of x`
 //! for a nondeterministic square q (set-extensional form), for ALL 2^64 boards and pairs.
-//! Attribute contracts (woven by vlib/registry.py) sit on the non-const methods pop / pop_unchecked /
-//! set / clear; const fns cannot carry Kani contract attributes (their expansion is not const), so
+//! Attribute contracts (woven by vlib/registry.py) sit on the non-const methods pop_unchecked / set / clear
+//! (`pop` carries none: movegen's foreach-loop proofs replace it by a one-shot abstraction via kani::stub, and
+//! Kani cannot stub a function that carries a contract); const fns cannot carry Kani contract attributes (their expansion is not const), so
 //! their contracts are harness-stated here.
 #[cfg(test)]
 extern crate std;
@@ -140,18 +141,6 @@ fn c18_count() {
 /// Attribute contracts (woven onto the real fns), discharged by proof_for_contract. The trailing assert
 /// restates the ensures clause so that a counterexample also fails when replayed natively
 /// (contract attributes are not executed outside Kani).
-#[kani::proof_for_contract(BitBoard::pop)]
-fn c18_pop_contract() {
-    let mut a: BitBoard = kani::any();
-    let o = a.to_u64();
-    match a.pop() {
-        None => assert!(o == 0 && a.to_u64() == 0, "VERIF pop contract None {:#x}", o),
-        Some(p) => {
-            let b = 1u64 << (p as u8);
-            assert!(o & b != 0 && o & (b - 1) == 0 && a.to_u64() == o & !b, "VERIF pop contract {:#x} -> {:?}", o, p);
-        }
-    }
-}
 #[kani::proof_for_contract(BitBoard::pop_unchecked)]
 fn c18_pop_unchecked_contract() {
     let mut a: BitBoard = kani::any();
